@@ -620,7 +620,7 @@ func GetRecords(name string, typ recordtype.Type) []string {
 
 	ctx := storage.GetReadOnlyContext()
 	tokenID := []byte(tokenIDFromName(ctx, name))
-	_ = getFragmentedNameState(ctx, tokenID, fragments) // ensure not expired
+	_ = getFragmentedNameState(ctx, tokenID, nil) // ensure not expired
 	return getRecordsByType(ctx, tokenID, name, typ)
 }
 
@@ -1108,7 +1108,7 @@ func resolve(ctx storage.Context, res []string, name string, typ recordtype.Type
 // elements of the domain name path: if empty, splits name on its own.
 func getAllRecords(ctx storage.Context, name string, fragments []string) iterator.Iterator {
 	tokenID := []byte(tokenIDFromName(ctx, name))
-	_ = getFragmentedNameState(ctx, tokenID, fragments) // ensure not expired
+	_ = getFragmentedNameState(ctx, tokenID, nil) // ensure not expired
 	recordsKey := getRecordsKey(tokenID, name)
 	return storage.Find(ctx, recordsKey, storage.ValuesOnly|storage.DeserializeValues)
 }
